@@ -16,8 +16,8 @@ import (
 type BoundedItem struct {
 	Property    string            `json:"property"`
 	Name        string            `json:"name"`
-	Pkg         string            `json:"pkg"` // directory relative to /repo
-	Dir         string            `json:"dir"` // directory under /verif/replay holding the files (default: pkg)
+	Pkg         string            `json:"pkg"`  // directory relative to /repo
+	Dir         string            `json:"dir"`  // directory under /verif/replay holding the files (default: pkg)
 	Role        string            `json:"role"` // "stand-in" (default): covers clauses no contract discharges; "cross-check": runs next to a proof
 	Files       []string          `json:"files"`
 	Run         string            `json:"run"`
